@@ -14,8 +14,20 @@ case: {quirks: "fixed"|"pinned", keep_lb, mkeys: [key of epoch 0..], okeys: [..]
                                 history as recorded, `fileVals R raw`),
        red: [null | lr id ..]  (epoch 1..n: the learning rate `update_for_epoch(e)` writes into the
                                 optimizer before it saves; absent = no reduction anywhere),
-       sched: [{epoch, k, torn, rm: [[kind,key]..]} ..]}   -- one killed session each; `torn`: call k
-                                                            -- is executed half-way (`tornDisk tear`)
+       sched: [{crash: null | {epoch, ops, n_ops, torn}, updates: [{epoch, ops} ..]} ..],
+       final: {updates: [..]}}
+  one entry of `sched` per session that the schedule kills (`crash = null`: the implementation never reached
+  the crash point of that session — the number of calls an update makes is the implementation's business).
+  `ops` = the EFFECTIVE file-system mutations the implementation was seen to make in that update, in its
+  order, in the model's vocabulary (`parseOp`; `null` when one of them has no counterpart in the model);
+  `n_ops` their number; `torn` = null | the half-executed call the process died in
+  (["write","tmp",i,"torn"] / ["hwrite","torn"]); `after` = what it did while the interrupt unwound (soft
+  deaths; the model admits [["remove","tmp",i] ..] — `unwindOk` — and nothing else). The model does NOT replay these calls on trust: it
+  matches them against the orders it admits for the update (`updateOrders`: every interleaving of the two
+  save pipelines, clean-up in any order, no-op calls dropped — `crashMatch` / `fullMatch` of the Model, about
+  which `c16_crashMatch_rec` is proved) and reports `trace_ok`. Not admitted -> `trace_ok = false` and the
+  model's own order cut after the same number of effective calls.
+  temp file ids in `ops`: 0 = the temp file of the model's state dict, 1 = the optimizer's.
 reply: {sessions: [..], final: ..} — see `sessionJ`. A state is [w, t, lr], an optimizer file
 ["optim", t, lr] (`Opt`: per-parameter state id + learning-rate id; 0 = the initial rate).
 
@@ -95,26 +107,54 @@ def recJ (c : Cfg) (d : Disk) : Json :=
           ("exact_lb", boolJ (exactLBOk c.P c.spec d k)),
           ("all_loadable", boolJ ((List.range' 1 k).all (fun j => decide (loadState c.P d j = some (U c.tr j)))))]
 
+/-- an observed call in the model's vocabulary, before the temp ids / contents are resolved -/
+inductive Obs where
+  | mktemp (i : Nat)
+  | write (i : Nat) (torn : Bool)
+  | replace (i : Nat) (dst : Path)
+  | openA
+  | hwrite (l : Line)
+  | remove (p : Path)
+  | rmtmp (i : Nat)
+
 structure CrashIn where
   epoch : Nat
-  i : Nat
-  torn : Bool
-  hint : List Path
+  ops : Option (List Obs)
+  nOps : Nat
+  torn : Option Obs
+  /-- what the implementation did to the disk while the interrupt unwound (soft deaths) -/
+  after : Option (List Obs) := some []
 
-def reorder (cl hint : List Path) : List Path :=
-  hint.filter (fun p => cl.contains p) ++ cl.filter (fun p => !hint.contains p)
+structure SessIn where
+  crash : Option CrashIn := none
+  updates : List (Nat × Option (List Obs)) := []
+
+/-- temp id 0 = the model's pipeline (`freshTmp`), 1 = the optimizer's (`freshTmp + 1`); contents are the
+plan's (what the implementation really wrote is seen in the disk comparison) -/
+def resolve (d : Disk) (s : St) : Obs → FsOp
+  | .mktemp i => .mktemp (freshTmp d.files + i)
+  | .write i torn => .write (freshTmp d.files + i)
+      (if torn then .torn else if i = 0 then .model s.1 else if i = 1 then .optim s.2 else .torn)
+  | .replace i dst => .replace (freshTmp d.files + i) dst
+  | .openA => .openAppend
+  | .hwrite l => .hwrite l
+  | .remove p => .remove p
+  | .rmtmp i => .remove (.tmp (freshTmp d.files + i))
 
 structure SessOut where
   status : String
   start : Option Nat := none
   atEpoch : Option Nat := none
   trace : List FsOp := []
+  traceOk : Bool := true
   updates : List Json := []
-  hintOk : Bool := true
   disk : Disk
 
+def updJ (e : Nat) (ops : List FsOp) (ok : Bool) (d' : Disk) : Json :=
+  objJ [("epoch", natJ e), ("trace", listJ opJ ops), ("trace_ok", boolJ ok), ("disk", diskJ d')]
+
 /-- the in-process loop: `fuel` updates at most. -/
-def loopS (c : Cfg) (vals : List (Option Int)) (crash : Option CrashIn) :
+def loopS (c : Cfg) (vals : List (Option Int)) (si : SessIn) :
     Nat → Nat → St → Disk → List Json → SessOut
   | 0, k, _, d, ups => { status := "completed", atEpoch := some k, updates := ups.reverse, disk := d }
   | fuel + 1, k, s, d, ups =>
@@ -123,47 +163,56 @@ def loopS (c : Cfg) (vals : List (Option Int)) (crash : Option CrashIn) :
     match planUpdate c.Q c.P vals k d s' with
     | .error _ => { status := "refused", atEpoch := some e, updates := ups.reverse, disk := d }
     | .ok (main, cl) =>
-      let crashHere := match crash with
+      let crashHere := match si.crash with
         | some ci => if ci.epoch = e then some ci else none
         | none => none
       match crashHere with
       | some ci =>
-        let cl' := reorder cl ci.hint
-        let ops := opsOf main cl'
-        let hintOk := ci.hint.all (fun p => cl.contains p)
-        if ci.i < ops.length then
-          let pre := ops.take ci.i
-          let d'' := if ci.torn then tornDisk tear d ops ci.i else exec d pre
-          { status := "crashed", atEpoch := some e, trace := pre, updates := ups.reverse,
-            hintOk := hintOk, disk := d'' }
-        else
-          let d' := exec d ops
-          loopS c vals crash fuel e s' d'
-            (objJ [("epoch", natJ e), ("trace", listJ opJ ops), ("disk", diskJ d')] :: ups)
+        let obs := (ci.ops.getD []).map (resolve d s')
+        let tornOp := ci.torn.map (resolve d s')
+        let orders := updateOrders c.Q c.P vals k d s' (removalsOf obs)
+        -- while the interrupt unwinds the model admits the removal of temp files and nothing else
+        let unwind := (ci.after.getD []).map (resolve d s')
+        let unwindOk' := ci.after.isSome && unwindOk unwind
+        let unwind := if unwindOk' then unwind else []
+        match (if ci.ops.isSome then crashMatch orders d obs tornOp else none) with
+        | some L =>
+          { status := "crashed", atEpoch := some e, trace := obs ++ unwind, traceOk := unwindOk',
+            updates := ups.reverse, disk := exec (crashDisk d L obs tornOp) unwind }
+        | none =>
+          -- not an order the model admits: the model's own order, cut after as many effective calls
+          let L0 := effective d (opsOf main (reorder cl (removalsOf obs)))
+          let d'' := if tornOp.isSome then tornDisk tear d L0 ci.nOps else exec d (L0.take ci.nOps)
+          { status := "crashed", atEpoch := some e, trace := L0.take ci.nOps, traceOk := false,
+            updates := ups.reverse, disk := exec d'' unwind }
       | none =>
         let ops := opsOf main cl
         let d' := exec d ops
-        loopS c vals crash fuel e s' d'
-          (objJ [("epoch", natJ e), ("trace", listJ opJ ops), ("disk", diskJ d')] :: ups)
+        let ok := match si.updates.find? (fun u => u.1 == e) with
+          | none => true
+          | some (_, none) => false
+          | some (_, some h) =>
+            let obs := h.map (resolve d s')
+            fullMatch (updateOrders c.Q c.P vals k d s' (removalsOf obs)) d obs
+        loopS c vals si fuel e s' d' (updJ e (effective d ops) ok d' :: ups)
 
-def runSession (c : Cfg) (d : Disk) (crash : Option CrashIn) : SessOut :=
+def runSession (c : Cfg) (d : Disk) (si : SessIn) : SessOut :=
   match recorded d with
   | none => { status := "stuck_init", disk := d }
   | some k =>
     match loadState c.P d k with
     | none => { status := "stuck_load", start := some k, disk := d }
     | some s =>
-      let r := loopS c (c.valsAt k) crash (c.raw.length - k) k s d []
+      let r := loopS c (c.valsAt k) si (c.raw.length - k) k s d []
       { r with start := some k }
 
 def sessionJ (c : Cfg) (o : SessOut) : Json :=
   objJ [("status", strJ o.status), ("start", optJ natJ o.start), ("epoch", optJ natJ o.atEpoch),
-        ("trace", listJ opJ o.trace), ("updates", Json.arr o.updates.toArray),
-        ("hint_ok", boolJ o.hintOk), ("disk", diskJ o.disk), ("rec", recJ c o.disk)]
+        ("trace", listJ opJ o.trace), ("trace_ok", boolJ o.traceOk), ("updates", Json.arr o.updates.toArray),
+        ("disk", diskJ o.disk), ("rec", recJ c o.disk)]
 
-def parsePath (j : Json) : Except String Path := do
-  let a ← j.getArr?
-  match a.toList with
+def parsePathL (l : List Json) : Except String Path := do
+  match l with
   | [k, n] => do
     let k ← k.getStr?
     let n ← n.getNat?
@@ -174,14 +223,60 @@ def parsePath (j : Json) : Except String Path := do
     | _ => throw s!"bad path kind {k}"
   | _ => throw "bad path"
 
-def parseCrash (j : Json) : Except String CrashIn := do
+def parseLine (j : Json) : Except String Line :=
+  match j with
+  | .str "header" => pure .header
+  | .str "torn" => pure .torn
+  | _ => do pure (.row (← j.getNat?))
+
+/-- `none`: a call the model has no word for -/
+def parseOp (j : Json) : Option Obs :=
+  match j.getArr? with
+  | .error _ => none
+  | .ok a =>
+    match a.toList with
+    | [.str "mktemp", i] => (i.getNat?.toOption).map .mktemp
+    | [.str "write", .str "tmp", i] => (i.getNat?.toOption).map (.write · false)
+    | [.str "write", .str "tmp", i, .str "torn"] => (i.getNat?.toOption).map (.write · true)
+    | [.str "replace", .str "tmp", i, k, n] =>
+        match i.getNat?.toOption, (parsePathL [k, n]).toOption with
+        | some i, some p => some (.replace i p)
+        | _, _ => none
+    | [.str "open_a"] => some .openA
+    | [.str "hwrite", l] => ((parseLine l).toOption).map .hwrite
+    | [.str "remove", .str "tmp", i] => (i.getNat?.toOption).map .rmtmp
+    | [.str "remove", k, n] => ((parsePathL [k, n]).toOption).map .remove
+    | _ => none
+
+def parseOps (j : Json) : Except String (Option (List Obs)) := do
+  match j with
+  | .null => pure none
+  | _ =>
+    let a ← j.getArr?
+    pure (a.toList.mapM parseOp)
+
+def parseUpd (j : Json) : Except String (Nat × Option (List Obs)) := do
   let e ← getNat j "epoch"
-  let i ← getNat j "k"
-  let torn ← getBool j "torn"
-  let hint ← match fieldOpt j "rm" with
+  let ops ← parseOps (← field j "ops")
+  pure (e, ops)
+
+def parseSess (j : Json) : Except String SessIn := do
+  let ups ← match fieldOpt j "updates" with
     | none => pure []
-    | some h => jsonToList parsePath h
-  pure ⟨e, i, torn, hint⟩
+    | some u => jsonToList parseUpd u
+  match fieldOpt j "crash" with
+  | none => pure { updates := ups }
+  | some cj =>
+    let e ← getNat cj "epoch"
+    let n ← getNat cj "n_ops"
+    let ops ← parseOps (← field cj "ops")
+    let torn := (fieldOpt cj "torn").bind parseOp
+    -- a torn call the model has no word for makes the whole observation unmatchable
+    let ops := if (fieldOpt cj "torn").isSome && torn.isNone then none else ops
+    let after ← match cj.getObjVal? "after" with
+      | .ok a => parseOps a
+      | .error _ => pure (some [])
+    pure { crash := some ⟨e, ops, n, torn, after⟩, updates := ups }
 
 def parsePair (j : Json) : Except String (Option Int × Option Int) := do
   let a ← j.getArr?
@@ -227,11 +322,14 @@ def parseCfg (c : Json) : Except String Cfg := do
 
 def c16Run : Handler := fun j => do
   let c ← parseCfg j
-  let sched ← getList parseCrash j "sched"
-  let (d, outs) := sched.foldl (fun (acc : Disk × List Json) ci =>
-      let o := runSession c acc.1 (some ci)
+  let sched ← getList parseSess j "sched"
+  let finIn ← match fieldOpt j "final" with
+    | none => pure ({} : SessIn)
+    | some f => parseSess f
+  let (d, outs) := sched.foldl (fun (acc : Disk × List Json) si =>
+      let o := runSession c acc.1 si
       (o.disk, sessionJ c o :: acc.2)) (Disk.blank, [])
-  let fin := runSession c d none
+  let fin := runSession c d finIn
   -- the hypothesis of the `_rounded` theorems (`Rounding.Consistent`) on the values of this case
   let cons := c.raw.all (fun v => match v with
     | none => true
